@@ -8,7 +8,7 @@ import collections, json, random
 from onl.sim import Environment
 from onl.packet import Packet, DistPacketGenerator, PacketSink
 from onl.netdev import Port, Wire, TokenBucket, TwoRateTokenBucket
-from onl.netdev.demux import FlowDemux
+from onl.netdev.demux import FlowDemux, FIBDemux
 from onl.scheduler import SP, WFQ, DRR, VC
 from onl.scheduler.rr import RR
 from onl.scheduler.wrr import WRR
@@ -201,7 +201,23 @@ class Pipe:
         if c['fan']:
             for (n, k, e) in self.elems[len(c['chain']):]:
                 e.out = Tap(self, n, final)
-            self.demux = FlowDemux(self.branches)
+            if c.get('fan_kind') == 'fib':
+                # a FIBDemux whose table is incomplete at first and is replaced (setter) or completed (same dict) during
+                # the run: while a flow has no route its packets are discarded by rule ("no route"), from the update on
+                # they must be forwarded
+                self.full = {f: i for i, f in enumerate(FLOWS)}
+                self.table = {f: self.full[f] for f in c['fib0']}
+                self.demux = FIBDemux(outs=self.branches, fib=self.table)
+                self.noroute = []
+                orig = self.demux.put
+                def dput(p, orig=orig):
+                    t = self.demux.fib
+                    if not (p.flow_id in t and 0 <= t[p.flow_id] < len(self.branches)):
+                        self.noroute.append(p)
+                    orig(p)
+                self.demux.put = dput
+            else:
+                self.demux = FlowDemux(self.branches)
             nxt = self.demux
         else:
             nxt = final
@@ -238,6 +254,14 @@ class Pipe:
                     self.head.put(p)
         for k in range(c['nsrc']):
             env.process(src(k + 1))
+        if c['fan'] and c.get('fan_kind') == 'fib':
+            def reroute():
+                yield env.timeout(c['t_update'])
+                if c['update'] == 'setter':
+                    self.demux.fib = dict(self.full)
+                else:
+                    self.table.update(self.full)
+            env.process(reroute())
         old = wire_mod.random
         wire_mod.random = self.draws
         self.raised = None
@@ -296,8 +320,10 @@ def pipe_oracle(c, pr):
     got = sum(pr.sink.packets_received.values())
     ndrop = sum(len(d['drop']) for d in per.values())
     lossy = any(k == 'wire' and e.loss_rate for _, k, e in pr.elems)
-    if not lossy and got + ndrop != len(pr.sent):
-        fails.append({'what': f'{len(pr.sent)} packets sent, {got} at the sink, {ndrop} dropped by ports', 'signature': 'pipeline-conservation'})
+    nnr = len(getattr(pr, 'noroute', []))
+    if not lossy and got + ndrop + nnr != len(pr.sent):
+        fails.append({'what': f'{len(pr.sent)} packets sent, {got} at the sink, {ndrop} dropped by ports, {nnr} discarded for lack of a route '
+                              f'(chain {c["chain"]}, fan {c["fan"]}, {c.get("fan_kind", "flow")} demux)', 'signature': 'pipeline-conservation'})
     for f in FLOWS:
         if pr.sink.bytes_received[f] != sum(p.size for p in per['__none__']['in']) if False else False:
             pass
@@ -309,7 +335,11 @@ def pipe_case(rng, cid):
     fan = None
     if rng.random() < 0.3:
         fan = {f: rng.choice(['port', 'wire', 'tb', 'sp', 'drr', 'wfq']) for f in FLOWS}
-    return {'cid': f'p{cid}', 'kind': 'pipe', 'chain': chain, 'fan': fan, 'seed': rng.randrange(1 << 30), 'nsrc': rng.randint(1, 3), 'npk': rng.randint(1, 10)}
+    c = {'cid': f'p{cid}', 'kind': 'pipe', 'chain': chain, 'fan': fan, 'seed': rng.randrange(1 << 30), 'nsrc': rng.randint(1, 3), 'npk': rng.randint(1, 10)}
+    if fan and rng.random() < 0.5:
+        c.update(fan_kind='fib', fib0=[f for f in FLOWS if rng.random() < 0.5], t_update=rng.choice([0.5, 1, 2, 3, 5]),
+                 update=rng.choice(['setter', 'inplace']))
+    return c
 
 
 # ---------------------------------------------------------------------------------------------------
@@ -338,7 +368,7 @@ def run(ctx):
             f = pipe_oracle(c, pr)
             npk += len(pr.sent)
             for k in c['chain']: hist['elem:' + k] += 1
-            if c['fan']: hist['fan-out'] += 1
+            if c['fan']: hist['fan-out:' + c.get('fan_kind', 'flow')] += 1
         for x in f:
             x['case'] = c
             orc.append(x)
@@ -350,7 +380,7 @@ def run(ctx):
     samples = [c for c in cases if c['kind'] == 'pipe'][:2]
     nontriv = len({json.dumps(c, sort_keys=True, default=str) for c in cases if c['kind'] != 'pipe' or len(c['chain']) > 1 or c['fan']})
     cov = {'evaluations': len(cases), 'distinct_nontrivial': nontriv,
-           'rule': 'generator scripts, sink delivery scripts and random pipelines (chains of 1-4 elements from 10 kinds, optional FlowDemux fan-out/fan-in); non-trivial = distinct case (pipelines: more than one element or a fan-out)',
+           'rule': 'generator scripts, sink delivery scripts and random pipelines (chains of 1-4 elements from 10 kinds, optional FlowDemux / FIBDemux fan-out/fan-in, the FIBDemux with a route update during the run); non-trivial = distinct case (pipelines: more than one element or a fan-out)',
            'samples': samples, 'traces_validated_against_impl': len(impl) - len(dis), 'packets_through_pipelines': npk,
            'operation_histogram': dict(sorted(hist.items()))}
     return {'coverage': cov, 'disagreements': dis, 'oracle_failures': orc}
